@@ -71,6 +71,10 @@ def oracle(toks, line):
         if ty == "st":
             return line == f"ok same=1 val={int(v) >> 8}"
         return line == f"ok same=1 val={int(v)}"
+    if c == "scaste":
+        UND = {"e64": "ullong", "eu32": "uint", "es8": "schar"}
+        w, en = toks[2].split(":")
+        return line == f"ok {ccast(TYPES[toks[1]], int(toks[3]))}" if en in UND else None
     if c == "scast":
         to = toks[1]
         w, fr = toks[2].split(":")
@@ -134,6 +138,13 @@ def run(chk):
             for w in ("tainted", "tvol"):
                 for v in (vv if thorough else rng.sample(vv, min(6, len(vv)))):
                     ops.append(f"scast {to} {w}:{fr} {v}")
+    # enum sources (#68): underlying types wider than int / unsigned above INT_MAX / negative
+    for to in BASE:
+        for en, un in (("e64", "ullong"), ("eu32", "uint"), ("es8", "schar")):
+            vv = vals(un, 1)
+            for w in ("tainted", "tvol"):
+                for v in (vv if thorough else rng.sample(vv, min(5, len(vv)))):
+                    ops.append(f"scaste {to} {w}:{en} {v}")
     # casts that involve a floating-point type (every integer type x {float, double, long double}, both directions, and
     # between the floating-point types); integers beyond the significand exercise rounding: exactly one, to nearest even
     def fvals(t):
